@@ -5,6 +5,10 @@ import json
 CLAIMED = {
  "C01": ("§6 C01", "Seeded simulation of the real router, wrappers (proxy_protocol, tls, throttle, tee, subroute, echo) and Connection buffer over a simulated network with segmentation, short reads, latency, windows, half-close and reset; every consuming handler's reads are compared byte for byte with a reference stream at every read. Exploration: a clean batch is evidence, not proof.",
          "simulated network and clock (testing/synctest) stand in for the kernel; harness spec matchers stand in for arbitrary matcher read patterns; TLS client is crypto/tls"),
+ "C02": ("§6 C02", "Seeded simulation of the real RouteList.Compile state machine (nested subroutes, and/or/not matcher sets, never-deciding and erroring matchers, terminal and non-terminal handlers) under arbitrary arrival schedules; the recorded history of leaf evaluations, handler invocations and fallback marks is checked against an independent executable spec of the documented combination rules. Exploration (sampled, not exhaustive).",
+         "spec matchers with published pure verdict functions stand in for real matchers; the W-tcp top-level fallback (close) is observable only as absence of handlers, subroute fallbacks are observed directly; listener-wrapper fallback is covered by C13"),
+ "C05": ("§6 C05", "Seeded simulation on the bubble clock (exact simulated time) of the matching phase over TCP and UDP with silent, trickling, flooding and stalling clients, timeouts 50ms..5s, sub-second start phases, nested subroute timeouts and empty route lists; timed oracle: not late, not early while undecided, bounded buffering, no handler after the deadline, deadline cleared for handlers and fallbacks.",
+         "simulated clock and network; timers armed by the code under test fire 1us..3ms late (tape-chosen), as real timers do; UDP: only the first association of a client is judged"),
 }
 NA = {
  "C07": "pure function of the ClientHello bytes (differential input testing against crypto/tls): no schedule, clock, fault or interleaving for a simulator to decide; its one schedule-dependent clause is exercised under C06",
@@ -12,7 +16,7 @@ NA = {
  "C15": "Caddyfile->JSON adaptation and JSON round trip are pure single-threaded functions of the configuration text",
  "C18": "FromBytes/ToBytes inverse laws are pure functions of byte strings",
 }
-PENDING = ["C02","C03","C04","C05","C06","C08","C09","C10","C11","C12","C13","C16","C17"]
+PENDING = ["C03","C04","C06","C08","C09","C10","C11","C12","C13","C16","C17"]
 m = {
  "version": 1,
  "setup_cmd": "./check build",
